@@ -210,6 +210,11 @@ def judge (prop : String) (j : Json) : R Verdict := do
       if let some u := numOf untl then
         if atx.ttl != some u then spec := spec ++ ["exact:ttl"]
       if untl.isNone && atx.ttl.isSome then spec := spec ++ ["exact:ttl"]
+      -- an amount no ledger field can hold makes compilation fail, in an optional output too: it is never dropped
+      for o in tx.outputs do
+        if let .node .assets cs := o.amount then
+          if let some (_, assets) := assetTotals cs then
+            if assets.any (fun a => a.2.2 ≥ 2 ^ 64) then spec := spec ++ ["exact:asset-total-beyond-u64-accepted"]
       -- outputs
       let nPub := (tx.adhoc.filter fun d => adhocName d == "cardano_publish").length
       if expectedOutputs.length + nPub != atx.outputs.length then
